@@ -53,6 +53,16 @@ impl Family for C17Family {
         };
         let mut c = ceremony(backend, *r.pick(&WRAPS), gen_store_cfg(&mut r));
         c.rng_seed = r.next_u64();
+        // one run in six: the store already holds a U2F-style credential that came from elsewhere (registered
+        // through another interface of the same token, or imported) and carries a user handle
+        if r.chance(1, 6) {
+            let mut pre = gen_prelude(&mut r, 1, Some(true));
+            pre[0].rp_id = crate::model::b64url(&r.bytes(32));
+            pre[0].user_handle = Some(r.bytes_range(1, 16));
+            pre[0].counter = Some(0);
+            pre[0].key_layout = 0;
+            c.prelude = pre;
+        }
         let mut actor = gen_actor(&mut r);
         // U2F never consults the user-validation method: what that method says it can do must not matter
         if r.chance(1, 4) {
@@ -138,7 +148,7 @@ impl Family for C17Family {
         let c = ceremony_of(scn);
         let rec = run_and_measure(c, stats);
         let mut j = Judge::new("C17", scn, &rec);
-        for p in ["key_handle_registered_again", "registration_verified", "authentication_verified", "unknown_handle_rejected", "empty_key_handle", "key_handle_255", "frame_with_le", "save_error_reported", "authentication_for_other_application", "version_frame_with_nonzero_le", "registration_response_encoded_with_certificate", "authenticator_without_presence_or_verification_capability", "near_miss_key_handle", "ctap2_assertion_with_u2f_credential"] {
+        for p in ["key_handle_registered_again", "registration_verified", "authentication_verified", "unknown_handle_rejected", "empty_key_handle", "key_handle_255", "frame_with_le", "save_error_reported", "authentication_for_other_application", "version_frame_with_nonzero_le", "registration_response_encoded_with_certificate", "authenticator_without_presence_or_verification_capability", "near_miss_key_handle", "ctap2_assertion_with_u2f_credential", "imported_credential_with_user_handle"] {
             stats.declare_probe(p);
         }
         if let Some(p) = &rec.panic {
@@ -155,6 +165,14 @@ impl Family for C17Family {
             stats.probe("authenticator_without_presence_or_verification_capability");
         }
         let mut keys: BTreeMap<Vec<u8>, (Vec<u8>, Option<p256::ecdsa::VerifyingKey>)> = BTreeMap::new();
+        // credentials the store held before the run count as registered (application = the decoded RP ID)
+        for pre in &c.prelude {
+            if let Some(app) = crate::model::b64url_decode(&pre.rp_id).filter(|a| a.len() == 32) {
+                let vk = p256::ecdsa::VerifyingKey::from(p256::ecdsa::SigningKey::from(crate::model::secret_of_pre(pre)));
+                keys.insert(pre.id.clone(), (app, Some(vk)));
+                stats.probe("imported_credential_with_user_handle");
+            }
+        }
         let mut sig = crate::rng::Fnv::new();
         let mut nontrivial = false;
         for o in &rec.ops {
